@@ -123,12 +123,35 @@ pub fn compare(ctx: &Ctx, out: &mut Out, text: &str, gtext: &str, origin: &str) 
             }
         }
     }
+    // A contradiction on a goal with a negated conjunct: is it still there when the negated conjuncts
+    // are dropped?  Then the negation plays no part (e.g. F31: SLG's false negative on an atom solved
+    // as a sub-goal), and the classifier says so.
+    let mut neg_tag = if gtext.contains("not {") { "-neg" } else { "" };
+    if graph && !neg_tag.is_empty() && answer_kind(&Ok(answers[0].clone())) != answer_kind(&Ok(answers[1].clone())) {
+        // the same goal with its negated conjuncts dropped (a single positive conjunct is doubled, so
+        // that it is still solved as a SUB-goal of a conjunction, not as the root)
+        let positives: Vec<&str> = gtext.split(", ").map(|c| c.trim()).filter(|c| !c.is_empty() && !c.starts_with("not")).collect();
+        if !positives.is_empty() {
+            let g2 = if positives.len() == 1 { format!("{}, {}", positives[0], positives[0]) } else { positives.join(", ") };
+            if let Ok(g1) = lower_goal_text(&program, &g2) {
+                let p1 = peel(&g1);
+                let ks: Vec<&'static str> = solver_choices()
+                    .into_iter()
+                    .map(|(name, choice)| answer_kind(&solve_fresh_budget(text, &p1, choice, budget.map(|b| if name == "slg" { b } else { 80 * b }))))
+                    .collect();
+                if ks[0] == answer_kind(&Ok(answers[0].clone())) && ks[1] == answer_kind(&Ok(answers[1].clone())) && ks[0] != ks[1] {
+                    neg_tag = "";
+                    out.count("contradiction_without_the_negated_conjuncts");
+                }
+            }
+        }
+    }
     let req = if graph {
         out.count(&format!("graph_shape_{}", shape));
         tagged("compatible", vec![answer_generic(&answers[0]), answer_generic(&answers[1]), atom(&format!(
             "graph-{}{}-slg_{}-rec_{}",
             shape,
-            if gtext.contains("not {") { "-neg" } else { "" },
+            neg_tag,
             answer_kind(&Ok(answers[0].clone())),
             answer_kind(&Ok(answers[1].clone()))
         ))])
